@@ -32,6 +32,15 @@ Definition size_class_text (c : size_class) : bytes :=
   | SizeRefused => bs "toolarge"
   end.
 
+(* the sender of an event (outside pseudo-ID rooms) is a user ID: the sigil, and a colon that
+   separates a domain.  An event without one is refused outright - never "too large but
+   persistable", whatever its sizes (F100). *)
+Definition sender_well_formed (s : bytes) : bool :=
+  match s with
+  | c :: r => (c =? 64) && existsb (fun x => x =? 58) r
+  | [] => false
+  end.
+
 (* ---- unpadded base64 as a positional numeral (independent of the group-wise codec) ---- *)
 Definition b64_digit (url : bool) (c : N) : option N :=
   if (65 <=? c) && (c <=? 90) then Some (c - 65)
